@@ -238,6 +238,10 @@ class Bounds:
         """[(kind, goal term, description)] for one event."""
         k = ev.kind
         d = ev.data
+        if k == 'slice':
+            return [('slice', conj([op('le', d[1], d[2]), op('le', d[2], ('len', d[0]))]), 'slice bounds %s..%s ordered and within the sequence' % (tstr(d[1])[:30], tstr(d[2])[:30]))]
+        if k == 'while-once':
+            return [('while-once', neg_cond(d[0]), 'the `while` loop is modelled as one guarded iteration: its condition must be false afterwards')]
         if k == 'panic':
             if is_ctor:
                 return []   # a constructor may reject its arguments: that is the documented contract (C15 quantifies over accepted N)
@@ -483,6 +487,12 @@ def run_bounds(F, R, want_c15=True, want_c18=True):
                 for what, where in vg.unknowns:
                     R.violation('M0-unknown', '%s:%s:%s' % (v.name, label, what), 'construct not understood by the value graph (%s): the buffer analysis is incomplete' % what, where)
                 for ev in vg.events:
+                    if ev.kind == 'while-once':
+                        H = Hyps(entry + list(ev.pc) + loop_hyps(ev.pc, B.ctx(vg)), B.ctx(vg))
+                        okw = entails_h(H, neg_cond(ev.data[0]))
+                        R.ob('M0-while', '%s:%s:%s' % (v.name, label, _shape(ev.data[0])), okw,
+                             'the `while` loop runs at most once per call (its condition is false after one iteration, by the class invariant)' if okw else
+                             'a `while` loop could not be shown to stop after one iteration: its effect on the buffers is not modelled', loc(ev.node))
                     if ev.kind in ('grow', 'grow-unbounded'):
                         pl = ev.data[0]
                         root = pl
@@ -598,7 +608,7 @@ def mir_crosscheck(F, R):
             sp = tuple(c['sp'])
             kinds = seen.get(sp[:3], set()) | seen.get(('line', sp[0], sp[1]), set())
             want = 'unwrap' if name.endswith(('unwrap', 'expect')) else ('fclamp' if name.endswith('clamp') else 'index')
-            ok = want in kinds or (want == 'index' and 'index' in kinds) or (want == 'unwrap' and 'unwrap_cmp' in kinds)
+            ok = want in kinds or (want == 'index' and ('index' in kinds or 'slice' in kinds)) or (want == 'unwrap' and 'unwrap_cmp' in kinds)
             R.ob('X-mir-call', '%s:%s' % (canon(d), name.split('::')[-1]), ok,
                  'MIR call %s maps to a judged obligation' % name if ok else
                  'MIR call to %s at %s:%d has no corresponding judged obligation' % (name, sp[0], sp[1]), '%s:%d' % (sp[0], sp[1]))
